@@ -153,4 +153,15 @@ theorem ctrChunk?_eq (block : Bytes) (cs i : Nat) (h : cs * i + cs ≤ block.len
   rw [slice?_eq _ 0 cs (Nat.zero_le _) (by simp; omega)]
   simp [rng]
 
+/-! ### seeking and position reporting -/
+
+theorem currentPos?_eq {σ : Type} (K : Glue.Core σ) (s : Glue.Wr σ) (snMax : Nat) (h : 1 ≤ s.pos) :
+    currentPos? K s snMax = some (s.currentPos K snMax) := by
+  simp [currentPos?, show s.pos ≠ 0 by omega]
+
+theorem seek?_eq {σ : Type} (K : Glue.Core σ) (s : Glue.Wr σ) (p : Nat) (hbs : 0 < K.bs) :
+    seek? K s p = some (s.seek K p) := by
+  have := Nat.mod_lt p hbs
+  simp [seek?, show K.bs ≠ 0 by omega, this]
+
 end Impl.Chk
